@@ -626,3 +626,14 @@ def same_impl_helper(body):
             return True
         return cb["q"].rsplit("::", 1)[0] == mod
     return ok
+
+
+def deep_has_lit(n, v):
+    """a literal with value v anywhere in an expression, patterns of `if let` / match arms included"""
+    if isinstance(n, dict):
+        if n.get("k") == "lit" and n.get("v") == v:
+            return True
+        return any(deep_has_lit(x, v) for x in n.values())
+    if isinstance(n, (list, tuple)):
+        return any(deep_has_lit(x, v) for x in n)
+    return False
